@@ -47,6 +47,11 @@ pub fn deserialize(index: u64) -> Result<A5Cell, String> {
     // Technically not a resolution, but can be useful to think of as an
     // abstract cell that contains the whole world
     if resolution == -1 {
+        // Only the all-zero index denotes the world cell; any other pattern without a
+        // resolution marker is not a cell
+        if index != WORLD_CELL {
+            return Err(format!("Invalid cell index: {:#x}", index));
+        }
         return Ok(A5Cell {
             origin_id: 0,
             segment: 0,
